@@ -24,6 +24,7 @@ EXPLANATION = (
     ' Also evaluated here: fork-copy completeness and the absence of custom copy hooks (C20 R20.1, C14 R14.1): a prank or frame record shared between sibling paths changes the sender a call sees.'
     ' Round 4: is_create recognises exactly CREATE and CREATE2 in any comparison form; the insufficient-funds branch is kept unless proved infeasible (C02 R02.1 at handle_insufficient_fund_case / transfer_value).'
     ' Round 5: table of EVM failure classes, each an ExceptionalHalt (R09.7); any further static-context failure site must not decide by a structural test of the value term and must exempt CALLCODE.'
+    ' Round 7: the insufficient-funds branch is skipped only for a zero value - every early return of handle_insufficient_fund_case is guarded by tests over the value alone (C02 R02.7).'
 )
 ASSUMPTIONS = ["deepcopy / dict.copy semantics", "StorageData has no custom __deepcopy__ that shares state (checked)"]
 
